@@ -44,7 +44,8 @@ impl RuleSpec {
             seed: rng.next_u64() >> 1,
             pass_pct,
             drop_pct,
-            const_delay: if rng.chance(0.35) { Some(rng.below(5) as u8) } else { None },
+            // index 5 = Duration::MAX ("hold for ever")
+            const_delay: if rng.chance(0.35) { Some(if rng.chance(0.1) { 5 } else { rng.below(5) as u8 }) } else { None },
         }
     }
 }
@@ -95,6 +96,9 @@ pub fn verdict_of(spec: &RuleSpec, tag: &Tag, tcp_safe: bool) -> Verdict {
         return Verdict::Drop;
     }
     let i = spec.const_delay.map(|c| c as usize).unwrap_or(((h >> 8) % 5) as usize);
+    if i == 5 {
+        return Verdict::Deliver(Duration::MAX);
+    }
     Verdict::Deliver(Duration::from_micros(DELAYS_US[i % 5]))
 }
 
